@@ -319,6 +319,19 @@ def load(obj, classes=None):
             raise TranslationError(
                 "Error instantiating {0}: {1}".format(json_class.__name__, ex)
             )
+        except ValueError:
+            # An enumeration member is looked up by its value: one which is
+            # not a JSON scalar (e.g. a tuple) comes back in its JSON form
+            members = getattr(json_class, "__members__", None)
+            if not members or len(params) != 1:
+                raise
+
+            for member in members.values():
+                if dump(member.value) == params[0]:
+                    new_obj = member
+                    break
+            else:
+                raise
     elif isinstance(params, utils.DictType):
         try:
             new_obj = json_class(**params)
